@@ -1,6 +1,6 @@
 (* C08 — property theorems only: each restates the full statement and is closed by the lemma proved in Proofs/. *)
 From Coq Require Import ZArith List Bool.
-From NPS Require Import ListAux PySlice NumpySem Scatter BuildIdx XorBroadcast View Index Assign Reduce Scan RaOps Heap Hash HashRun BitArr RLE RLEOps RLE2d DataClass RowsSpec AssignSpec MapSpec Denote StructProof SubsetProof RSliceProof NonzeroProof PaddedProof.
+From NPS Require Import ListAux PySlice NumpySem Scatter BuildIdx XorBroadcast View Index Assign Reduce Scan RaOps Heap Hash HashRun BitArr RLE RLEOps RLE2d DataClass RowsSpec AssignSpec MapSpec Denote StructProof SubsetProof RSliceProof NonzeroProof PaddedProof Struct2 Struct2Proof.
 Import ListNotations.
 Open Scope Z_scope.
 
@@ -8,6 +8,36 @@ Theorem C08_concat0_correct :
   forall (A : Type) (Rs : list (list (list A))), fr_rows (ra_concat0 (map fr_of_rows Rs)) = concat Rs.
 Proof. exact concat0_correct. Qed.
 Print Assumptions C08_concat0_correct.
+
+Theorem C08_concat1_correct :
+  forall (A : Type) (xs : list (list (list A))),
+       let R := fr_rows (ra_concat1 xs) in
+       length R = min_len xs /\
+       (forall i : nat,
+        (i < min_len xs)%nat -> nth i R [] = concat (map (fun x : list (list A) => nth i x []) xs)).
+Proof. exact concat1_correct. Qed.
+Print Assumptions C08_concat1_correct.
+
+Theorem C08_like_correct :
+  forall (A : Type) (R : list (list A)) (c : A),
+       fr_rows (ra_like (fr_of_rows R) c) = map (fun r : list A => repeat c (length r)) R.
+Proof. exact like_correct. Qed.
+Print Assumptions C08_like_correct.
+
+Theorem C08_where_correct :
+  forall (A : Type) (M : list (list bool)) (X Y : list (list A)),
+       map zlen X = map zlen M ->
+       map zlen Y = map zlen M ->
+       rmap fr_rows (ra_where (fr_of_rows M) (fr_of_rows X) (fr_of_rows Y)) = Ok (spec_where M X Y).
+Proof. exact where_correct. Qed.
+Print Assumptions C08_where_correct.
+
+Theorem C08_where_scalar_correct :
+  forall (A : Type) (M : list (list bool)) (X : list (list A)) (y : A),
+       map zlen X = map zlen M ->
+       rmap fr_rows (ra_where_s (fr_of_rows M) (fr_of_rows X) y) = Ok (spec_where_s M X y).
+Proof. exact where_scalar_correct. Qed.
+Print Assumptions C08_where_scalar_correct.
 
 Theorem C08_subset_correct :
   forall (A : Type) (R : list (list A)) (M : list (list bool)),
